@@ -354,6 +354,7 @@ class GridSearcher(StochasticSearcher):
             super().get_state(),
             next_index=self._next_index,
             all_initial_configs=self._all_initial_configs.get_state(),
+            hp_values_combinations=list(self.hp_values_combinations),
         )
         return state
 
@@ -370,6 +371,9 @@ class GridSearcher(StochasticSearcher):
     def _restore_from_state(self, state: Dict[str, Any]):
         super()._restore_from_state(state)
         self._next_index = state["next_index"]
+        # ``next_index`` refers to the (shuffled) order of the original searcher
+        if "hp_values_combinations" in state:
+            self.hp_values_combinations = list(state["hp_values_combinations"])
         self._all_initial_configs = ExclusionList(self._hp_ranges)
         self._all_initial_configs.clone_from_state(state["all_initial_configs"])
 
